@@ -41,7 +41,7 @@ CHECKS = {
              "(synthetic backends, and from_data backends with requests above / equal to / below / without the input's block count) "
              "log every antenna request and are compared with the model's request plan; totals, PKTIDX/PKTSTOP/SCANLEN and clocks are checked "
              "against the exact integers on the implementation.",
-        design="3/C20", technique="Coq proof over Z (div/mod, induction over blocks) + PrimFloat kernels + request-log correspondence"),
+        design="3/C20", technique="source-regenerated scalar kernels (tools/py2v.py) proved equal to the model + Coq proof over Z (div/mod, induction over blocks) + PrimFloat kernels + request-log correspondence"),
     "C15": dict(
         text="Theorem for every sample type and sum, every delay d <= maxd, every restart instant and every sequence of request sizes larger "
              "than the largest delay: the concatenated output is own[k] + bg[k + maxd - d] (induction over requests with the invariant "
@@ -61,7 +61,7 @@ CHECKS = {
              "subclass of numpy's Generator: requests, returned arrays, data, estimates and intensities bit for bit, quadrature levels to 1e-15 relative because x**2 is libm's pow). PARTIAL: the "
              "distribution of numpy's draws is an oracle -- sampled at 6.5 sigma, not proved; sigma-clipped re-estimates are compared with an "
              "independent reference within 1e-9; sqrt rounding in quadrature sums is covered by the twin, not the theorem.",
-        design="3/C11", technique="Coq proof over Q (field/induction) + generic model instantiated at binary64 + recorded-generator correspondence"),
+        design="3/C11", technique="source-regenerated scalar kernels (tools/py2v.py) proved equal to the model + Coq proof over Q (field/induction) + generic model instantiated at binary64 + recorded-generator correspondence"),
     "C10": dict(
         text="Theorems for all request partitions and op histories about the stream state machine (clock in sample periods, sequential "
              "generator position): concatenated chunked requests = the single request sample for sample (evaluation times and generator "
@@ -89,7 +89,7 @@ CHECKS = {
              "blocks written file by file and in total; blocks-per-file distribution sums to the request. The model assembles the header "
              "dictionary and lays out the first block's cards, which are compared byte for byte with the file; files are re-read with an "
              "independent parser, the library readers under every listing permutation, and blimpy.",
-        design="3/C04", technique="Coq proof (parse-emit round trip by induction, dictionary lemmas, nat div/mod) + byte-level header correspondence"),
+        design="3/C04", technique="source-regenerated scalar kernels (tools/py2v.py) proved equal to the model + Coq proof (parse-emit round trip by induction, dictionary lemmas, nat div/mod) + byte-level header correspondence"),
     "C07": dict(
         text="Theorems over exact rationals: the reader-side formula OBSFREQ - OBSBW/2 + (j+1/2)*CHAN_BW applied to the written header gives "
              "fch1 + (start_chan+j)*chan_bw for either sign of chan_bw and any first channel; get_raw_params recovers fch1 and chan_bw; the "
@@ -98,7 +98,7 @@ CHECKS = {
              "get_raw_params are compared with the rational model; reducer output shape with the model, its columns with an independent per-channel FFT + fftshift of the same bytes (even and odd lengths). PARTIAL: that a sampled tone peaks "
              "in the bin the DFT assigns is a DSP fact validated by recording tones/chirps and locating them with the file's own header "
              "(library reducer and an independent one), not proved.",
-        design="3/C07", technique="Coq field-arithmetic proof over Q (registration algebra) + end-to-end tone location (exploration for the spectral-peak fact)"),
+        design="3/C07", technique="source-regenerated scalar kernels (tools/py2v.py) proved equal to the model + Coq field-arithmetic proof over Q (registration algebra) + end-to-end tone location (exploration for the spectral-peak fact)"),
     "C14": dict(
         text="Theorems: the input reader takes sample (spectrum, pol) from the cell the GUPPI layout assigns to it and the 4-bit unpacking "
              "inverts the packing; in every sub-block of every plan and for both bit depths the synthetic spectrum written at an output "
@@ -124,7 +124,7 @@ CHECKS = {
              "the drift-rate helper follows from the grid. PARTIAL for doubles: the binary64 kernels (numpy's linspace / round in numpy's "
              "order) are compared bit for bit with frames from every construction route, and the round trip / nearest-channel / "
              "monotonicity claims are checked on every channel of every generated frame -- sampling of geometries, not a proof for all doubles.",
-        design="3/C05", technique="Coq proof over Q (field/lra, round-half-even lemmas) + PrimFloat bit-exact twins of linspace/get_index"),
+        design="3/C05", technique="source-regenerated scalar kernels (tools/py2v.py) proved equal to the model + Coq proof over Q (field/lra, round-half-even lemmas) + PrimFloat bit-exact twins of linspace/get_index"),
     "C06": dict(
         text="Theorems about the rational model of add_signal, for every frame, component form, option set and bounding range: the effective "
              "column slice is always valid (0 <= lo <= hi <= F); data' = data + returned array pixel by pixel; outside the range the data are "
@@ -151,7 +151,7 @@ CHECKS = {
              "sub-step count the helper passes on are compared with the rational model, the box-profile helper array with the model pixel for "
              "pixel, and helper vs general injection (compact everywhere, tailed within FWHM), mirror symmetry and zero-drift smearing are "
              "evaluated on the implementation for all five profile types.",
-        design="3/C13", technique="Coq proof over Q (floor/ceiling bounds by lra) + exact-rational and helper-vs-general correspondence"),
+        design="3/C13", technique="source-regenerated scalar kernels (tools/py2v.py) proved equal to the model + Coq proof over Q (floor/ceiling bounds by lra) + exact-rational and helper-vs-general correspondence"),
     "C17": dict(
         text="Theorems: a slice [l,r) holds exactly columns l..r-1 of data and axis and inherits T, df, dt, orientation, start time and source, "
              "with fch1 per orientation; de-drifting shifts row i by round(|d| i dt/df) towards the start of the drift for either sign (offsets "
